@@ -301,3 +301,14 @@ Example C20_ex_read_bytes :
   read_bytes 20 (reader_new 8 exk_input [Data 3; Fail; Data 10]) 4 = Err E_Io /\
   exists r', read_bytes 20 (reader_new 8 exk_input [Data 3; Fail; Data 10]) 3 = Ok ([97; 61; 98]%N, r').
 Proof. split; [vm_compute; reflexivity|]. eexists. vm_compute. reflexivity. Qed.
+
+(* the name used in the work plan: persistent failure ends in an error (= C20_persistent_errors_run) *)
+Theorem C20_persistent_errors : forall input, wf_bytes input -> forall n fuel r start sref tl,
+  rokf input r -> srel r start sref ->
+  length sref < n -> length input + 2 <= fuel ->
+  capok (rbw r) (rrd r) (snd (rr start sref)) ->
+  sched (rrd r) = Fail :: tl -> 0 < cap (rbw r) ->
+  exists pre suf p,
+    run_next n fuel r = (map OTok pre ++ [OErr E_Io], p) /\
+    fst (fst (rr start sref)) = map OTok pre ++ suf /\ suf <> [] /\ p <= length input.
+Proof. exact C20_persistent_errors_run. Qed.
